@@ -84,6 +84,11 @@ pub fn scenario_c13(seed: u64, rep: &mut Report) {
 
 pub fn run_c13(p: &Params) -> Report {
     let mut rep = Report::new("C13");
+    if let Some(r) = &p.replay {
+        if super::sys::replay(r, &mut rep) {
+            return rep;
+        }
+    }
     if let Some(seed) = replay_seed(p) {
         scenario_c13(seed, &mut rep);
         return rep;
@@ -93,6 +98,8 @@ pub fn run_c13(p: &Params) -> Report {
         let seed = p.shard_seed(0x13_0000 + i);
         crate::util::guarded(&mut rep, seed, |rep| scenario_c13(seed, rep));
     }
+    // full stack: an unmodified Discv5 inside a simulated network, judged on the wire and the API
+    super::sys::run_mixed(p, super::sys::Focus::C13, 0x5C13_0000, 1600, 100000, &mut rep);
     rep
 }
 
@@ -118,6 +125,11 @@ pub fn scenario_c19(seed: u64, rep: &mut Report) {
 
 pub fn run_c19(p: &Params) -> Report {
     let mut rep = Report::new("C19");
+    if let Some(r) = &p.replay {
+        if super::sys::replay(r, &mut rep) {
+            return rep;
+        }
+    }
     if let Some(seed) = replay_seed(p) {
         scenario_c19(seed, &mut rep);
         return rep;
@@ -127,5 +139,7 @@ pub fn run_c19(p: &Params) -> Report {
         let seed = p.shard_seed(0x19_0000 + i);
         crate::util::guarded(&mut rep, seed, |rep| scenario_c19(seed, rep));
     }
+    // full stack: an unmodified Discv5 inside a simulated network, judged on the wire and the API
+    super::sys::run_mixed(p, super::sys::Focus::C19, 0x5C19_0000, 1600, 100000, &mut rep);
     rep
 }
